@@ -424,10 +424,18 @@ def check_case(case, ctx):
         if not opts.get("drh") and max(gap1, gap2) > k * scale:
             ctx.label("inconclusive:large-duality-gap")
             continue
-        if opts.get("drh") and max(gap1, gap2) > 1.01 * opts.get("tol_dr", 1e-4) + 5 * k * scale:
-            # after a heuristic the primal value may sit tol_dimension_reduction below the bound, not more: a larger gap means
-            # the solver did not solve one of the two runs accurately (seen: Gram entries 5e7 for a value of 7e3)
+        thr = 1.01 * opts.get("tol_dr", 1e-4) + 5 * k * scale
+        if opts.get("drh") and gap2 > thr:
+            # after a heuristic the primal value may sit tol_dimension_reduction below the bound, not more: a larger gap in the
+            # run of the REBUILT model means the solver cannot solve this model accurately (seen: Gram entries 5e7 for a value
+            # of 7e3), and nothing can be concluded from comparing the two runs
             ctx.label("inconclusive:large-duality-gap")
+            continue
+        if opts.get("drh") and gap1 > thr and sc != "SCS":
+            # the rebuilt model is solved accurately but the re-solved object returns a primal point far below its own bound
+            ctx.fail("resolve-primal-far-below-bound-unlike-fresh-model", "round %d: after %s the re-solved object has primal value "
+                     "%.9g for a dual bound %.9g (tol_dimension_reduction %g), the rebuilt model has gap %.3g"
+                     % (r, opts["drh"], out.get("primal", float("nan")), out.get("dual", float("nan")), opts.get("tol_dr", 1e-4), gap2))
             continue
         tol = (3 if sc != "SCS" else 10) * k * scale * (5 if opts.get("drh") and opts.get("ret") == "primal" else 1)
         if opts.get("drh") and opts.get("ret") == "primal":
